@@ -195,6 +195,23 @@ class Run:
                     self.fails.append(("keepalive-closed-early",
                                        "connection %d idle since t=%d closed by the reaper at t=%d, keepalive=%d"
                                        % (cl["cid"], t0, cl["now"], ka)))
+        # the reaper runs in EVERY iteration of the main loop, busy or not: an idle connection that was already past its deadline
+        # when the loop last stood at its head is gone when the loop stands there again
+        # (judged at poller.select only: futures.wait is a park point in the middle of an iteration as well)
+        if st[0] == "m" and w.main_label() == "select" and w.worker.alive:
+            first = w.worker._keep[0] if w.worker._keep else None
+            mark = None
+            if first is not None:
+                s0 = first.sock
+                if first.timeout <= w.now and s0.closes == 0 and not s0.inbuf and not s0.eof:
+                    mark = (s0.cid, first.timeout)
+            if mark is not None and mark == getattr(self, "_expired_at_head", None):
+                self.fails.append(("keepalive-not-reaped", "connection %d, the oldest idle one, was past its keep-alive deadline (%r, t=%d) when "
+                                   "the main loop stood at poller.select, and it still is when the loop stands there again: a whole "
+                                   "iteration without closing it" % (mark[0], mark[1], w.now)))
+            self._expired_at_head = mark
+        elif st[0] == "m":
+            self._expired_at_head = None if not w.worker.alive else getattr(self, "_expired_at_head", None)
         open_socks = len([s for s in w.socks if s.accepted and s.closes == 0])
         bound = wc + nl - 1
         if open_socks > bound or sn["nr_conns"] > bound:
